@@ -423,7 +423,7 @@ class C04(PropBase):
                                                       " ".join("%d %d %s" % m for m in mods)))
             exps.append(exp)
         exe = vlib.os.path.join(vlib.CACHE, "ocaml", "c04", "model")
-        p = subprocess.run([exe], input="\n".join(reqs) + "\n", stdout=subprocess.PIPE, text=True, timeout=600)
+        p = subprocess.run([exe], input="\n".join(reqs) + "\n", stdout=subprocess.PIPE, text=True, timeout=20000)
         outs = p.stdout.split("\n")[:len(reqs)]
         if len(outs) != len(reqs) or p.returncode != 0:
             raise vlib.CheckFailure("layout requests to the C04 model failed")
@@ -487,10 +487,26 @@ class C04(PropBase):
             reqs.append("M %d %d %d %d %d %s %d %s" % (arch, os_, base, ip0, depth, " ".join(specs), len(mods),
                                                       " ".join("%d %d %s" % m for m in mods)))
             exps.append(exp)
-        p = subprocess.run([self.model_exe()], input="\n".join(reqs) + "\n", stdout=subprocess.PIPE, text=True, timeout=900)
-        outs = p.stdout.split("\n")[:len(reqs)]
-        if len(outs) != len(reqs) or p.returncode != 0:
-            raise vlib.CheckFailure("mixed layout requests to the C04 model failed")
+        # four model processes side by side (each request also computes two walks); no wall-clock limit that a loaded machine could hit
+        k = 4
+        chunks = [reqs[i::k] for i in range(k)]
+        procs = [subprocess.Popen([self.model_exe()], stdin=subprocess.PIPE, stdout=subprocess.PIPE, text=True) for _ in chunks]
+        import threading
+        res = [None] * k
+
+        def feed(i):
+            res[i] = procs[i].communicate("\n".join(chunks[i]) + "\n", timeout=20000)[0]
+        ths = [threading.Thread(target=feed, args=(i,)) for i in range(k)]
+        for t in ths:
+            t.start()
+        for t in ths:
+            t.join()
+        outs = [None] * len(reqs)
+        for i in range(k):
+            lines = (res[i] or "").split("\n")[:len(chunks[i])]
+            if len(lines) != len(chunks[i]) or procs[i].returncode != 0:
+                raise vlib.CheckFailure("mixed layout requests to the C04 model failed")
+            outs[i::k] = lines
         cases = []
         for out, exp in zip(outs, exps):
             case, chain, wf = out.split(" ## ")
